@@ -31,6 +31,7 @@ class S(vlib.Spec):
         14: "FastRead panicked on an encoding with one corrupted type byte (model: gopkg Skip indexed typeToSize with a negative type)",
         15: "FastRead panicked / the process died on a truncated encoding; the model does not say why",
         16: "FastRead panicked / the process died on a corrupted or extended encoding; the model does not say why",
+        18: "the statements bitset.go emits for n required fields do not report exactly the first field that was not read",
         17: "the driver process died (Go runtime: out of memory) in FastRead where the model answers with an error: make(T, size) with a size taken from the input",
     }
     modelled = ("generator/fastgo/gen_blength.go (genBLength, genBLengthField/Any/List/Map/Struct), gen_fastwrite.go (genFastAppend, "
@@ -80,7 +81,7 @@ class S(vlib.Spec):
             return "C10-fastread-out-of-memory-hostile-size"
         names = {2: "blength-not-exact", 3: "fast-bytes-do-not-decode-to-value", 4: "std-read-of-fast-bytes",
                  5: "fastread-differs-from-std-read", 10: "truncated-encoding-accepted", 11: "fastwrite-differs-from-fastappend",
-                 12: "fast-writer-panic", 15: "fastread-panic-truncated-unexplained", 16: "fastread-panic-unexplained"}
+                 12: "fast-writer-panic", 18: "bitset-tests-wrong", 15: "fastread-panic-truncated-unexplained", 16: "fastread-panic-unexplained"}
         kind = (case or {}).get("kind", "?")
         pert = (case or {}).get("perturbation", "")
         return "C10-%s-%s%s" % (names.get(code, "code-%d" % code), kind, ("-" + pert) if pert else "")
